@@ -87,7 +87,7 @@ def gen_fa(rng, kind=None, max_states=5, max_symbols=3, max_trans=9, plain_symbo
             symmode = "str"
     case = {"kind": kind, "valmode": valmode, "symmode": symmode, "states": states,
             "symbols": symbols, "hash": hashes, "hashmode": mode, "trans": trans, "starts": starts,
-            "finals": finals, "ctor": rng.chance(0.25),
+            "finals": finals, "ctor": rng.chance(0.25), "ctor_all": rng.chance(0.5),
             "extra_symbols": ([rng.pick(["x", "y"])] if rng.chance(0.12) else []),
             "extra_states": []}
     if rng.chance(0.18):
@@ -162,6 +162,8 @@ def ref_of(case):
     finals = {skey(case, s) for s in case["finals"]}
     st |= starts | finals
     alpha = {a for _, a, _ in tr if a is not None} | {ykey(case, s) for s in case.get("extra_symbols", [])}
+    if case.get("ctor") and case.get("ctor_all"):
+        alpha |= {ykey(case, s) for s in case["symbols"]}
     for p, a, q in _ghosts(case):
         if [p, a, q] not in case["trans"]:
             st |= {skey(case, p), skey(case, q)}
@@ -189,10 +191,13 @@ def build(case):
     starts = [sval(case, s) for s in case["starts"]]
     finals = [sval(case, s) for s in case["finals"]]
     if case.get("ctor"):
+        # every constructor argument: declared states (all of them) and the declared alphabet
+        kw = {"states": {sval(case, s) for s in case["states"]},
+              "input_symbols": {yval(case, s) for s in case["symbols"]}} if case.get("ctor_all") else {}
         if case["kind"] == "dfa":
-            fa = cls(start_state=(starts[0] if starts else None), final_states=set(finals))
+            fa = cls(start_state=(starts[0] if starts else None), final_states=set(finals), **kw)
         else:
-            fa = cls(start_state=set(starts), final_states=set(finals))
+            fa = cls(start_state=set(starts), final_states=set(finals), **kw)
     else:
         fa = cls()
         for s in starts:
@@ -291,6 +296,8 @@ def shrink_fa(case):
         yield mk(ghost_final=None)
     if case.get("ctor"):
         yield mk(ctor=False)
+        if case.get("ctor_all"):
+            yield mk(ctor_all=False)
     for i, t in enumerate(case["trans"]):
         if t[1] is None and case["kind"] == "enfa":
             continue
